@@ -40,7 +40,21 @@ func oracleC16(res *RunResult) []Violation {
 		}
 		return "", false
 	}
+	lastOut := map[string][]byte{} // the latest cosigned checkpoint handed out per log (one operation in flight at a time)
 	for _, r := range res.Hist {
+		if r.Op.K == "update" && r.Class == "accept" && r.Req != nil {
+			lastOut[r.Req.LogID] = r.Out
+		}
+		if r.Op.K == "get" && res.Plan.Cfg.Clients <= 1 && r.Req.Known && r.NetFault == "" {
+			got, ok := r.HBody, r.HErr == nil && r.HStatus == 200
+			if r.Op.B != 0 {
+				got, ok = r.CBytes, r.CErr == nil
+			}
+			if want, has := lastOut[r.Req.LogID]; has && ok && string(got) != string(want) {
+				add("wrong_bytes", "not_latest_cosigned", r.Idx, fmt.Sprintf("the read returned %s but the latest cosigned checkpoint the witness handed out for log %d is %s", short(got), r.Req.LogIdx, short(want)))
+				continue
+			}
+		}
 		switch r.Op.K {
 		case "get":
 			// the values this log held between invoke and return
